@@ -1,11 +1,118 @@
-/- Spec-driver operations of cluster D (see Driver/Main.lean). Imports Spec/* only — never Gen or Model. -/
+/- Spec-driver operations of cluster D (C06, C10, C18). Imports Spec/* only — never Gen or Model. -/
 import PdbVerif.Driver.Json
+import PdbVerif.Driver.DCommon
+import PdbVerif.Spec.C06
+import PdbVerif.Spec.C10
+import PdbVerif.Spec.C18
 
 namespace Driver.SpecD
-open Lean Driver
+open Lean Driver Driver.D Py
+
+def certJ (c : Spec.Certificate) : Json :=
+  Json.mkObj [("orth", ratJ c.orthDefect), ("det", ratJ c.detDefect), ("asym", ratJ c.asymDefect),
+              ("minMinor", ratJ c.minMinor), ("residual", ratJ c.residual)]
+
+def scaleMat (M : Mat3 Rat) (k : Rat) : Mat3 Rat :=
+  ⟨M.a / k, M.b / k, M.c / k, M.d / k, M.e / k, M.f / k, M.g / k, M.h / k, M.i / k⟩
+
+/-- `Spec.MustReject` decided on rationals -/
+def mustReject (eps : Rat) (P Q : List (Vec3 Rat)) : Bool :=
+  let unc (X : List (Vec3 Rat)) : Bool :=
+    let m := Spec.centroid X
+    decide (eps < absR m.x) || decide (eps < absR m.y) || decide (eps < absR m.z)
+  decide (P.length ≠ Q.length) || unc P || unc Q
+
+/-- certificate of the rotation `U` the implementation returned for the pair (P, Q); `scale` normalises the
+    cross-covariance so that the tolerances are absolute -/
+def rotationCert (j : Json) : Except String Json := do
+  let P ← jPoints j "P"; let Q ← jPoints j "Q"
+  let eps ← jRat j "eps"
+  let rej := mustReject eps P Q
+  if !hasField j "U" then
+    pure (Json.mkObj [("mustReject", .bool rej)])
+  else
+    let U ← jMat3 j "U"
+    let scale ← jRat j "scale"
+    let B := scaleMat (Spec.crossCov P Q) scale
+    pure (Json.mkObj [("mustReject", .bool rej), ("cert", certJ (Spec.certificate U B P Q)),
+                      ("sumSq", ratJ (Spec.sumSq P + Spec.sumSq Q))])
+
+def isometryOfJson (j : Json) : Except String (Spec.Isometry × Spec.Selection) := do
+  let kind ← jStr j "kind"
+  let mask ← jBoolList j "sel"
+  let sel := maskSel mask
+  match kind with
+  | "translation" => pure (.translation (← jVec3 j "vect"), sel)
+  | "rot_axis" => pure (.axisAngle (← jRat j "c") (← jRat j "s") (← jVec3 j "axis"), sel)
+  | "rot_euler" =>
+    pure (.euler (← jRat j "ca") (← jRat j "sa") (← jRat j "cb") (← jRat j "sb") (← jRat j "cg") (← jRat j "sg"), sel)
+  | "rot_mat" => pure (.matrix (← jMat3 j "mat"), sel)
+  | _ => throw s!"unknown isometry kind {kind}"
 
 def op (name : String) (j : Json) : Except String (Option Json) := do
   match name with
+  /- ---- C06 ---- -/
+  | "kabsch" => pure (some (← rotationCert j))
+  | "quat" => pure (some (← rotationCert j))
+  | "guard" => pure (some (← rotationCert j))
+  | "superpose_sel" =>
+    -- when the whole mobile array is the selection itself, the result must be optimally superposed on the
+    -- target: same centroid, and the identity is the optimal rotation of the centred pair
+    if !hasField j "out" then pure (some .null) else
+    let out ← jPoints j "out"; let tar ← jPoints j "selTar"
+    let scale ← jRat j "scale"
+    let co := Spec.centroid out; let ct := Spec.centroid tar
+    let Pc := out.map (fun p => Vec3.sub p co); let Qc := tar.map (fun p => Vec3.sub p ct)
+    let B := scaleMat (Spec.crossCov Pc Qc) scale
+    pure (some (Json.mkObj [("centroidShift", ratJ (maxR [absR (co.x - ct.x), absR (co.y - ct.y), absR (co.z - ct.z)])),
+                            ("cert", certJ (Spec.certificate Mat3.one B Pc Qc))]))
+  /- ---- C10 ---- -/
+  | "transform_seq" =>
+    let db ← jAtoms j "db"
+    let steps ← jArr j "steps"
+    let ts ← steps.toList.mapM isometryOfJson
+    -- the property speaks of non-empty selections; the first empty one is reported as such
+    let rec go (ts : List (Spec.Isometry × Spec.Selection)) (db : List Py.Atom) : Json :=
+      match ts with
+      | [] => atomsJ db
+      | (t, sel) :: rest =>
+        if (Spec.selectedXYZ sel db).length = 0 then .str "EMPTY-SELECTION"
+        else go rest (Spec.applyIsometry t sel db)
+    pure (some (go ts db))
+  | "rotate_xyz" =>
+    let X ← jPoints j "X"
+    let kind ← jStr j "kind"
+    let c ← if hasField j "center" then jVec3 j "center" else pure (Spec.centroid X)
+    let g : Vec3 Rat → Vec3 Rat ← match kind with
+      | "rot_axis" => do pure (Spec.axisRotate (← jRat j "c") (← jRat j "s") (← jVec3 j "axis"))
+      | "rot_euler" => do
+        pure (Spec.eulerRotate (← jRat j "ca") (← jRat j "sa") (← jRat j "cb") (← jRat j "sb") (← jRat j "cg") (← jRat j "sg"))
+      | "rot_mat" => do let M ← jMat3 j "mat"; pure M.mulVec
+      | _ => throw s!"unknown rotate kind {kind}"
+    pure (some (pointsJ (X.map (Spec.about g c))))
+  | "axis_angle" =>
+    -- the property: unit axis, angle in [0, 2π); evaluated on what the implementation returned
+    if !hasField j "axis_out" then pure (some .null) else
+    let ax ← jVec3 j "axis_out"; let an ← jRat j "angle_out"; let twoPi ← jRat j "twoPi"
+    pure (some (Json.mkObj [("unitDefect", ratJ (absR (Vec3.normSq ax - 1))),
+                            ("inRange", .bool (decide (0 ≤ an) && decide (an < twoPi)))]))
+  /- ---- C18 ---- -/
+  | "align" =>
+    if !hasField j "out" then pure (some .null) else
+    let db ← jAtoms j "db"; let out ← jAtoms j "out"
+    let mask ← jBoolList j "sel"
+    let axis ← jStr j "axis"
+    let least ← jBool j "least"
+    match (Spec.axisVec axis : Option (Vec3 Rat)) with
+    | none => pure (some (.str "NO-SUCH-AXIS"))
+    | some e =>
+      let c := Spec.alignCertificate least e mask db out
+      pure (some (Json.mkObj [("offAxis", ratJ c.offAxis), ("minMinor", ratJ c.minMinor),
+                              ("centroidShift", ratJ c.centroidShift), ("gramDefect", ratJ c.gramDefect),
+                              ("orientDefect", ratJ c.orientDefect), ("attrsChanged", intJ c.attrsChanged)]))
+  | "align_axis" =>
+    let axis ← jStr j "axis"
+    pure (some (.str (match (Spec.axisVec axis : Option (Vec3 Rat)) with | none => "NO-SUCH-AXIS" | some _ => "AXIS")))
   | _ => pure none
 
 end Driver.SpecD
